@@ -278,6 +278,37 @@ def abstract_case(which: int):
     return sorted(map(str, SC.CALLS)) == sorted(map(str, want)), f"abstract #{which}: calls {SC.CALLS}"
 
 
+def falsy_case(which: int):
+    """a falsy but non-null value ("" for a scalar of type str with serialize) is an occurrence like any other: serialize is called
+    once for it - as a nullable / non-null top-level variable and as an input field"""
+    del SC.CALLS[:]
+    c = new_client()
+    if which < 2:
+        invoke(c, META[f"AS{which}"].name, "")
+        expected = {"v": ""}
+    else:
+        In = getattr(PKG, "IS0" if which == 2 else "IS1")
+        invoke(c, META["XS0" if which == 2 else "XS1"].name, In(f=""))
+        expected = {"inp": {"f": ""}}
+    body = json.loads(c.http_client.calls[0]["content"])
+    return body["variables"] == expected and list(SC.CALLS) == [("ser_s", "")], f"falsy #{which}: sent {body['variables']} calls {SC.CALLS}"
+
+
+def check_falsy_values(which: int) -> bool:
+    """
+    post: _
+    """
+    if SETUP_ERROR:
+        return False
+    w = pick(which, 4)
+    with NoTracing():
+        try:
+            ok, _ = falsy_case(w)
+        except Exception:
+            ok = False
+    return ok
+
+
 def check_abstract_results(which: int) -> bool:
     """
     post: _
